@@ -328,12 +328,11 @@ def lsq(prog, rep):
     def pc_of(st):
         out = []
         for lit in pcs.of(st):
-            # any term denoting the dict (at any program point) is abstracted
-            l2 = lit
-            for t in list(walk(lit)):
-                if t[0] in ("phi", "dict") or t == NONE:
-                    pass
-            out.append(absr(lit))
+            # any term denoting the dict (at any program point) is abstracted; literals about other inputs
+            # (the weights argument ...) are independent of which parameters are fixed and are left out
+            l2 = absr(lit)
+            if any(t == ("FIXED",) or (t[0] == "attr" and t[1] == SELF and t[2].startswith("f_")) for t in walk(l2)):
+                out.append(l2)
         return out
 
     # abstraction of "fixed" at use sites: collect every term the name takes
